@@ -32,6 +32,11 @@ type LogClient struct {
 	// call-level faults (reads included): FailCallN > 0 makes the FailCallN-th API call of any kind (Get, List and the
 	// mutating calls, counted together, 1-based) fail with an InternalError — exactly that one call, later calls work.
 	FailCallN int
+	// ConflictAtWrite > 0: the ConflictAtWrite-th mutating call (1-based, counted over the client's life) fails ONCE with a
+	// 409 Conflict - "somebody else wrote the object in between" -, every other call works (a retry succeeds).
+	ConflictAtWrite int
+	OnConflict      func(rec WriteRec) // called when that conflict is injected, before the call returns: the concurrent writer
+	writesSeen      int
 	Calls     int    // API calls seen so far (reads and writes)
 	FaultHit  string // "" or a description of the call that was failed
 }
@@ -89,6 +94,16 @@ func (l *LogClient) pre(verb string, obj client.Object) (WriteRec, error) {
 		rec.Err = true
 		l.Log = append(l.Log, rec)
 		return rec, err
+	}
+	l.writesSeen++
+	if l.ConflictAtWrite > 0 && l.writesSeen == l.ConflictAtWrite {
+		rec.Err = true
+		l.Log = append(l.Log, rec)
+		l.FaultHit = "conflict:" + verb + " " + rec.Kind + " " + rec.Key
+		if l.OnConflict != nil {
+			l.OnConflict(rec)
+		}
+		return rec, apierrors.NewConflict(schema.GroupResource{Resource: "injected"}, rec.Key, fmt.Errorf("injected conflict at write %d", l.writesSeen))
 	}
 	idx := l.sequence
 	l.sequence++
